@@ -165,27 +165,32 @@ Section AnyBodies.
 End AnyBodies.
 
 (** * The property predicate *)
-Definition P_prop (c : cls) (x : caller) (o : obs) : Prop :=
+Definition P_prop (cm : string * string) (c : cls) (x : caller) (o : obs) : Prop :=
   (allowed c x = false -> o_ok o = false /\ unchanged o = true) /\
   (allowed c x = true ->
    match c with
    | Query => unchanged o = true
-   | OpenWrite => o_crash o = false /\ o_mem o = false /\ forall d, In d (o_diff o) -> mem_str d protected = false
-   | _ => o_crash o = false
+   | OpenWrite => o_crash o = false /\ o_mem o = false /\ (forall d, In d (o_diff o) -> mem_str d protected = false) /\
+                  (forall e, In e (o_foreign o) -> foreign_ok cm e = true)
+   | _ => o_crash o = false /\ (x_admin x = true \/ forall e, In e (o_foreign o) -> foreign_ok_priv cm e = true)
    end).
 
-Lemma P_call_spec c x o : P_call c x o = true <-> P_prop c x o.
+Lemma P_call_spec cm c x o : P_call_cm cm c x o = true <-> P_prop cm c x o.
 Proof.
-  unfold P_call, P_prop. destruct (allowed c x) eqn:A; simpl.
-  - split.
+  unfold P_call_cm, P_prop. destruct (allowed c x) eqn:A; cbn [negb].
+  - assert (Hgen : negb (o_crash o) && (x_admin x || forallb (foreign_ok_priv cm) (o_foreign o)) = true <->
+                   o_crash o = false /\ (x_admin x = true \/ forall e, In e (o_foreign o) -> foreign_ok_priv cm e = true)).
+    { rewrite andb_true_iff, negb_true_iff, orb_true_iff, forallb_forall. tauto. }
+    split.
     + intro H. split; [discriminate|]. intros _.
-      destruct c; try (apply negb_true_iff in H; exact H); try exact H.
-      rewrite !andb_true_iff, !negb_true_iff in H. destruct H as [[H1 H2] H3]. repeat split; try assumption.
-      intros d Hd. rewrite forallb_forall in H3. specialize (H3 d Hd). apply negb_true_iff in H3. exact H3.
+      destruct c; try (apply Hgen; exact H); try exact H.
+      rewrite !andb_true_iff, !negb_true_iff, !forallb_forall in H. destruct H as [[[H1 H2] H3] H4].
+      repeat split; try assumption.
+      intros d Hd. specialize (H3 d Hd). apply negb_true_iff in H3. exact H3.
     + intros [_ H]. specialize (H eq_refl).
-      destruct c; try (apply negb_true_iff; exact H); try exact H.
-      destruct H as [H1 [H2 H3]]. rewrite !andb_true_iff, !negb_true_iff. repeat split; try assumption.
-      apply forallb_forall. intros d Hd. apply negb_true_iff. apply H3. exact Hd.
+      destruct c; try (apply Hgen; exact H); try exact H.
+      destruct H as [H1 [H2 [H3 H4]]]. rewrite !andb_true_iff, !negb_true_iff, !forallb_forall. repeat split; try assumption.
+      intros d Hd. apply negb_true_iff. apply H3. exact Hd.
   - split.
     + intro H. apply andb_true_iff in H. destruct H as [H1 H2]. apply negb_true_iff in H1. split; [tauto|discriminate].
     + intros [H _]. destruct (H eq_refl) as [H1 H2]. rewrite H1, H2. reflexivity.
@@ -199,7 +204,7 @@ Definition obs_of (st : state) (r : outcome * state) : obs :=
      o_diff := map fst (filter (fun e : string * string => negb (String.eqb (fst e) "MEMORY")) new);
      o_acct := 0;
      o_mem := existsb (fun e : string * string => String.eqb (fst e) "MEMORY") new;
-     o_cache := false; o_crash := false |}.
+     o_cache := false; o_crash := false; o_foreign := [] |}.
 
 Lemma obs_of_unchanged st e : unchanged (obs_of st (Fail e, st)) = true.
 Proof. unfold obs_of, unchanged. simpl. rewrite Nat.sub_diag. reflexivity. Qed.
@@ -258,7 +263,7 @@ Lemma fixed_satisfies_P body st k m c :
   allowed c (k_caller k) = false ->
   P_call c (k_caller k) (obs_of st (invoke body cfg_fixed st k)) = true.
 Proof.
-  intros Hf Hk Ha. unfold P_call. rewrite Ha. simpl.
+  intros Hf Hk Ha. unfold P_call, P_call_cm. rewrite Ha. simpl.
   destruct (fixed_rejects body st k m c Hf Hk Ha) as [e ->].
   simpl. apply obs_of_unchanged.
 Qed.
@@ -400,3 +405,76 @@ Example class_counts :
   (List.length (filter (fun m => match class_of m with Some (Internal _) => true | _ => false end) surface) >= 30)%nat /\
   (List.length (filter (fun m => match class_of m with Some StubPromoted => true | _ => false end) surface) >= 300)%nat.
 Proof. vm_compute. repeat split; repeat constructor. Qed.
+
+(** * Reservations: an open method changes and deletes only records it created itself *)
+Lemma acct_eqb_eq a b : acct_eqb a b = true <-> a = b.
+Proof.
+  destruct a as [w1 s1], b as [w2 s2]. unfold acct_eqb. cbn [ac_who ac_sp].
+  rewrite andb_true_iff, !N.eqb_eq. split; [intros [-> ->]; reflexivity | intro H; inversion H; auto].
+Qed.
+
+Lemma acct_eqb_refl a : acct_eqb a a = true.
+Proof. apply acct_eqb_eq. reflexivity. Qed.
+
+Lemma rget_aremove_other k a (r : reservations) : acct_eqb k a = false -> rget k (aremove acct_eqb a r) = rget k r.
+Proof.
+  intro H. unfold rget. induction r as [|[x v] t IH]; [reflexivity|]. simpl.
+  destruct (acct_eqb a x) eqn:E.
+  - apply acct_eqb_eq in E. subst x. rewrite H. exact IH.
+  - simpl. destruct (acct_eqb k x); [reflexivity | exact IH].
+Qed.
+
+Lemma rget_aset_other k a v (r : reservations) : acct_eqb k a = false -> rget k (aset acct_eqb a v r) = rget k r.
+Proof. intro H. unfold rget, aset. simpl. rewrite H. apply rget_aremove_other. exact H. Qed.
+
+(** reserving / releasing a list of accounts none of which is [k] leaves [k]'s record alone *)
+Lemma fold_aset_other k admins : forall r,
+  (forall a, In a admins -> acct_eqb k a = false) ->
+  rget k (fold_left (fun acc a => aset acct_eqb a "appchainAdmin" acc) admins r) = rget k r.
+Proof.
+  induction admins as [|a t IH]; intros r H; [reflexivity|]. simpl.
+  rewrite IH; [|intros x Hx; apply H; right; exact Hx].
+  apply rget_aset_other. apply H. left. reflexivity.
+Qed.
+
+Lemma fold_aremove_other k admins : forall r,
+  (forall a, In a admins -> acct_eqb k a = false) ->
+  rget k (fold_left (fun acc a => aremove acct_eqb a acc) admins r) = rget k r.
+Proof.
+  induction admins as [|a t IH]; intros r H; [reflexivity|]. simpl.
+  rewrite IH; [|intros x Hx; apply H; right; exact Hx].
+  apply rget_aremove_other. apply H. left. reflexivity.
+Qed.
+
+(** with keys written under the spelling that was checked (the code as it is): a registration that is accepted
+    leaves every existing reservation as it was, and so does its later withdrawal - whoever the listed accounts are
+    and however they are spelled *)
+Lemma reservations_untouched c admins r r' k v :
+  register_res false c admins r = Some r' -> rget k r = Some v ->
+  rget k r' = Some v /\ rget k (free_res false admins r') = Some v.
+Proof.
+  unfold register_res, free_res, occ_key. intros H Hk.
+  destruct (negb _); [discriminate|].
+  destruct (existsb (fun a => match rget a r with Some _ => true | None => false end) admins) eqn:E; [discriminate|].
+  inversion H; subst r'; clear H.
+  assert (Hne : forall a, In a admins -> acct_eqb k a = false).
+  { intros a Ha. destruct (acct_eqb k a) eqn:Q; [|reflexivity]. apply acct_eqb_eq in Q. subst a.
+    assert (existsb (fun a => match rget a r with Some _ => true | None => false end) admins = true) as X.
+    { apply existsb_exists. exists k. split; [exact Ha | rewrite Hk; reflexivity]. }
+    rewrite X in E. discriminate E. }
+  assert (H1 : rget k (fold_left (fun acc a => aset acct_eqb a "appchainAdmin" acc) admins r) = Some v).
+  { rewrite fold_aset_other; assumption. }
+  split; [exact H1|].
+  rewrite (fold_aremove_other k admins _ Hne). exact H1.
+Qed.
+
+(** a deputy that canonicalises where the check does not: the victim's reservation (party 7, a governance admin)
+    is overwritten by the attacker's registration (party 1 lists party 7 in another spelling) and deleted by the
+    attacker's withdrawal *)
+Lemma reservations_canon_refuted :
+  let r := [({| ac_who := 7; ac_sp := 0 |}, "governanceAdmin")]%N in
+  let admins := [{| ac_who := 1; ac_sp := 0 |}; {| ac_who := 7; ac_sp := 1 |}]%N in
+  exists r', register_res true 1 admins r = Some r' /\
+             rget {| ac_who := 7; ac_sp := 0 |} r' = Some "appchainAdmin" /\
+             rget {| ac_who := 7; ac_sp := 0 |} (free_res true admins r') = None.
+Proof. eexists. split; [vm_compute; reflexivity|]. split; vm_compute; reflexivity. Qed.
